@@ -21,6 +21,32 @@ def vclose(a, b, tol=1e-9):
     return a.shape == b.shape and np.abs(a - b).max(initial=0.0) <= tol * max(1.0, np.abs(b).max(initial=0.0))
 
 
+def compare_posed(i1, i2, dr):
+    probs = []
+    nP, nF, nP2, nF2 = i1["nP"], i1["nF"], i2["nP"], i2["nF"]
+    P1, P2 = i1["posed"], i2["posed"]
+    if P1 is not None and P2 is not None:
+        for m in P1["problems"] + P2["problems"]:
+            probs.append(("posed:malformed", m))
+        if (nP, nF) != (nP2, nF2):
+            probs.append(("posed:dimensions", "cvxpy path has %s leaves, MOSEK path %s" % ((nP, nF), (nP2, nF2))))
+        elif len(P1["rows"]) != len(P2["rows"]) or P1["lmis"] != P2["lmis"]:
+            probs.append(("posed:row-count", "cvxpy poses %d rows / LMIs %s, MOSEK %d rows / LMIs %s"
+                          % (len(P1["rows"]), P1["lmis"], len(P2["rows"]), P2["lmis"])))
+        else:
+            tolc = 1e-9 if not dr else 1e-5
+            for k, (a, b) in enumerate(zip(P1["rows"], P2["rows"])):
+                if a["sense"] != b["sense"] or a["lmi"] != b["lmi"]:
+                    probs.append(("posed:row-kind", "row %d: cvxpy %s %s, MOSEK %s %s" % (k, a["sense"], a["lmi"], b["sense"], b["lmi"])))
+                    break
+                if not vclose(a["vec"], b["vec"], tolc):
+                    probs.append(("posed:row-data", "row %d denotes different affine functions on the two back-ends" % k))
+                    break
+            if P1["objsense"] != P2["objsense"] or not vclose(P1["objective"], P2["objective"], 1e-9 if not dr else 1e-4):
+                probs.append(("posed:objective", "the two back-ends optimise different objectives (%s / %s)" % (P1["objsense"], P2["objsense"])))
+    return probs
+
+
 def judge(spec, dr):
     from PEPit.point import Point
     from PEPit.expression import Expression
@@ -33,14 +59,18 @@ def judge(spec, dr):
             r = solving.solve(ctx.pep, backend=be, dr=dr)
         info = dict(r=r, nP=Point.counter, nF=Expression.counter, probs=[], posed=None, clist=None)
         res[be] = info
-        if r["exc"] is not None or r["value"] is None or r["status"] != "optimal":
+        if r["exc"] is not None:
             continue
         pep = ctx.pep
         w = pep.wrapper
+        # what was posed is read whatever the solver answered: two different answers to two identical problems are the
+        # solver's business, two different problems are the library's
         try:
             info["posed"] = REC.posed_cvxpy(w) if be == "cvxpy" else REC.posed_mosek(w.task, info["nP"], info["nF"])
         except Exception as e:
             info["probs"].append(("posed:raised:%s:%s" % (be, type(e).__name__), str(e)[:150]))
+        if r["value"] is None or r["status"] != "optimal":
+            continue
         tol = solving.tolerance(be, "CLARABEL")
         try:
             cert = CERT.certificate(pep)
@@ -85,30 +115,14 @@ def judge(spec, dr):
                 return [("no-optimum-answer-differs:%s" % ("unbounded" if "unbounded" in s1 else "infeasible"),
                          "cvxpy path returned %r, MOSEK path returned %r for a model without finite optimum" % (v1, v2))], "no-optimum"
             return [], "no-optimum"
+        pp = compare_posed(i1, i2, dr)
+        if pp:
+            return [(k + ":statuses-differ", m + " (cvxpy path: %s, MOSEK path: %s)" % (s1, s2)) for k, m in pp[:1]], "status-differs-posed-differs"
         return [], "status-differs:%s/%s" % (s1, s2)
     if s1 != "optimal" or s2 != "optimal" or v1 is None or v2 is None:
         return [], "not-judged:%s/%s" % (s1, s2)
     probs += i1["probs"] + i2["probs"]
-    P1, P2 = i1["posed"], i2["posed"]
-    if P1 is not None and P2 is not None:
-        for m in P1["problems"] + P2["problems"]:
-            probs.append(("posed:malformed", m))
-        if (nP, nF) != (nP2, nF2):
-            probs.append(("posed:dimensions", "cvxpy path has %s leaves, MOSEK path %s" % ((nP, nF), (nP2, nF2))))
-        elif len(P1["rows"]) != len(P2["rows"]) or P1["lmis"] != P2["lmis"]:
-            probs.append(("posed:row-count", "cvxpy poses %d rows / LMIs %s, MOSEK %d rows / LMIs %s"
-                          % (len(P1["rows"]), P1["lmis"], len(P2["rows"]), P2["lmis"])))
-        else:
-            tolc = 1e-9 if not dr else 1e-5
-            for k, (a, b) in enumerate(zip(P1["rows"], P2["rows"])):
-                if a["sense"] != b["sense"] or a["lmi"] != b["lmi"]:
-                    probs.append(("posed:row-kind", "row %d: cvxpy %s %s, MOSEK %s %s" % (k, a["sense"], a["lmi"], b["sense"], b["lmi"])))
-                    break
-                if not vclose(a["vec"], b["vec"], tolc):
-                    probs.append(("posed:row-data", "row %d denotes different affine functions on the two back-ends" % k))
-                    break
-            if P1["objsense"] != P2["objsense"] or not vclose(P1["objective"], P2["objective"], 1e-9 if not dr else 1e-4):
-                probs.append(("posed:objective", "the two back-ends optimise different objectives (%s / %s)" % (P1["objsense"], P2["objsense"])))
+    probs += compare_posed(i1, i2, dr)
     if abs(v1 - v2) > 2e-5 * max(1.0, abs(v1)):
         probs.append(("value-differs", "cvxpy path %.8g, MOSEK path %.8g" % (v1, v2)))
     l1, l2 = i1["clist"], i2["clist"]
